@@ -101,7 +101,7 @@ def on_event(
 ) -> None:
     event = data
     event["event"] = name
-    message = CoreEventTypeAdapter.dump_json(event)
+    message = CoreEventTypeAdapter.dump_json(event, by_alias=True)
     handlers.WebSocketHandler.broadcast(message, io_loop)
 
 
